@@ -45,6 +45,7 @@ impl Sim<'_> {
     /// (candidates are compared over the same window: plain parsing is not taken beyond `limit`, which is
     /// TRY_PARSE_AT_MOST lexemes after the error)
     fn reach(&self, mut stack: Stack, mut pos: usize, limit: usize) -> usize {
+        if pos >= limit { return limit; }   // a repair that itself ends beyond the window has got as far as the window reaches
         while pos < self.toks.len() && pos < limit { if !self.feed(&mut stack, self.toks[pos]) { break; } pos += 1; }
         if pos == self.toks.len() { let mut s = stack.clone(); let _ = self.feed(&mut s, self.grm.eof_token_idx()); }
         pos
@@ -130,6 +131,15 @@ fn node_skeleton(n: &lrpar::Node<lrlex::DefaultLexeme<u32>, u32>) -> String {
     }
 }
 
+/// the leaves of a tree in order: (token id, start byte, length in bytes, flagged as faulty)
+fn leaves(n: &lrpar::Node<lrlex::DefaultLexeme<u32>, u32>, out: &mut Vec<(u32, usize, usize, bool)>) {
+    use lrpar::Lexeme;
+    match n {
+        lrpar::Node::Term { lexeme } => out.push((lexeme.tok_id(), lexeme.span().start(), lexeme.span().len(), lexeme.faulty())),
+        lrpar::Node::Nonterm { nodes, .. } => for c in nodes { leaves(c, out); },
+    }
+}
+
 fn once(gsrc: String, input: String, costs: Vec<u8>) -> Result<String, String> {
     let grm = YaccGrammar::<u32>::new_with_storaget(YaccKind::Original(YaccOriginalActionKind::GenericParseTree), &gsrc).map_err(|_| "grammar".to_string())?;
     let (_, stable) = from_yacc(&grm, Minimiser::Pager).map_err(|_| "table".to_string())?;
@@ -157,7 +167,7 @@ fn once(gsrc: String, input: String, costs: Vec<u8>) -> Result<String, String> {
     // (the feed above may have reduced under the erroneous lookahead before hitting the error cell: the
     // recoverer is handed the stack as it is at that point)
     let maxc = costs.iter().map(|c| *c as usize).max().unwrap_or(1);
-    let want = match oracle(&sim, &stack, pos, if maxc == 1 { 4 } else { 3 * maxc.min(3) }, &|t| costs[usize::from(t) % costs.len()] as usize) { Some(s) => s, None => return Ok("search space too big".into()) };
+    let want = match oracle(&sim, &stack, pos, if maxc == 1 { 4 } else if maxc <= 3 { 3 * maxc } else { maxc }, &|t| costs[usize::from(t) % costs.len()] as usize) { Some(s) => s, None => return Ok("search space too big".into()) };
     // rank by reach, strip trailing shifts, dedup
     let limit = pos + 250;
     let best = want.iter().map(|(_, s, p)| sim.reach(s.clone(), *p, limit)).max().unwrap();
@@ -199,6 +209,25 @@ fn once(gsrc: String, input: String, costs: Vec<u8>) -> Result<String, String> {
             }
         }
         if k <= sim.toks.len() { rep.extend_from_slice(&sim.toks[k..]); }
+        // ... and its leaves spell the repaired input: real lexemes as they are, every inserted token a zero-length lexeme
+        // flagged as faulty at the start of the next real lexeme (at the end of the last lexeme when the input is used up)
+        if let Some(t) = tree_.as_ref() {
+            let real = |i: usize| (u32::from(sim.toks[i]), starts[i], lexemes[i].span().len(), false);
+            let next_start = |i: usize| if i < starts.len() { starts[i] } else { lexemes.last().map(|l| l.span().end()).unwrap_or(0) };
+            let mut want: Vec<(u32, usize, usize, bool)> = (0..pos).map(real).collect();
+            let mut k2 = pos;
+            for r in &pe.repairs()[0] {
+                match r {
+                    ParseRepair::Insert(t) => want.push((u32::from(*t), next_start(k2), 0, true)),
+                    ParseRepair::Delete(_) => k2 += 1,
+                    ParseRepair::Shift(_) => { if k2 < sim.toks.len() { want.push(real(k2)); } k2 += 1; }
+                }
+            }
+            for i in k2..sim.toks.len() { want.push(real(i)); }
+            let mut have = Vec::new();
+            leaves(t, &mut have);
+            if have != want { return Err(format!("the tree's leaves (token, start, length, faulty) are {:?}; the repaired input is {:?}", have, want)); }
+        }
         match (skeleton(&grm, &stable, &rep), tree_.as_ref().map(node_skeleton)) {
             (Some(a), Some(b)) => if a != b { return Err(format!("the value is {} but parsing the input with the first reported sequence {:?} applied gives {}", b, pe.repairs()[0].iter().map(|r| match r { ParseRepair::Insert(t) => format!("Insert {}", u32::from(*t)), ParseRepair::Delete(_) => "Delete".to_string(), ParseRepair::Shift(_) => "Shift".to_string() }).collect::<Vec<_>>(), a)); },
             (None, Some(_)) => return Err("the input with the first reported sequence applied is rejected by a plain parse, yet a value was returned for one error".into()),
@@ -250,6 +279,15 @@ pub fn search(_tag: &str, tier: &str) -> Option<Value> {
         let o = run(g, &input);
         if o.fails { return Some(witness("c06_repairs", json!({"grammar": g, "input": input}), &o)); }
     }
+    // a repair that itself ends beyond the window (250 one-unit deletions against one insertion costing 250): both are
+    // minimal and both let the rest of the input parse
+    for n in [249usize, 250, 251, 255] {
+        let g = "%start S\n%%\nS: 'a' 'a' X 'c' | 'a' 'c';\nX: | X 'b';";
+        let input = format!("a {}c", "b ".repeat(n));
+        let costs = [n as u8, n as u8, 1u8];
+        let o = run_costs(g, &input, &costs);
+        if o.fails { return Some(witness("c06_repairs", json!({"grammar": g, "input": input, "costs": costs}), &o)); }
+    }
     let n = if tier == "thorough" { 4000 } else { 400 };
     let mut r = Rng(0x9E3779B97F4A7C15);
     for k in 0..n {
@@ -263,7 +301,8 @@ pub fn search(_tag: &str, tier: &str) -> Option<Value> {
         if o.fails { return Some(witness("c06_repairs", json!({"grammar": g, "input": input}), &o)); }
         // non-unit token costs (token t costs costs[t mod len])
         if k % 3 == 0 {
-            let costs: &[u8] = [&[1u8, 2][..], &[2, 1, 3][..], &[3, 1][..], &[1, 1, 2][..]][r.below(4)];
+            // (the last two leave cost levels without any node: no token costs 1)
+            let costs: &[u8] = [&[1u8, 2][..], &[2, 1, 3][..], &[3, 1][..], &[1, 1, 2][..], &[2][..], &[3, 2][..]][r.below(6)];
             let o = run_costs(&g, &input, costs);
             if o.fails { return Some(witness("c06_repairs", json!({"grammar": g, "input": input, "costs": costs}), &o)); }
         }
